@@ -277,11 +277,14 @@ REQUIRED_REACH = {
 def run_exp(ctx, p):
     import spatialmath.base as base
     f = base.trexp if p['dim'] == 3 else base.trexp2
+    S_ = p['S']
+    if p.get('layout') and isinstance(S_, np.ndarray):
+        S_ = gen.layout(S_, p['layout'])       # same values, another object: Fortran-ordered / frozen / strided / reversed strides
     try:
         if p.get('theta') is not None:
-            f(p['S'], p['theta'])
+            f(S_, p['theta'])
         else:
-            f(p['S'])
+            f(S_)
     except Exception:
         pass   # the contract has judged it
 
@@ -291,6 +294,8 @@ def run_log(ctx, p):
     import spatialmath.base as base
     dim, kind, S = p['dim'], p['kind'], np.asarray(p['S'], dtype=np.float64)
     T = ref.f64(ref_exp(kind, S))
+    if p.get('layout'):
+        T = gen.layout(T, p['layout'])
     f = base.trlog if dim == 3 else base.trlog2
     nso, nse = (3, 6) if dim == 3 else (1, 3)
     w = S if kind == 'so' else S[nse - nso:]
@@ -333,6 +338,8 @@ def run_class(ctx, p):
         if which == 'Exp':
             arg = p.get('form', 'vec')
             a = S.tolist() if arg == 'list' else (S if arg == 'vec' else (ref.skew(S) if kind == 'so' else ref.skewa(S)))
+            if p.get('layout') and arg != 'list':
+                a = gen.layout(a, p['layout'])
             X = C.Exp(a)
             if type(X) is not C or len(X) != 1:
                 ctx.bad('class', dict(sig, kind='wrong_type'), '%s(%s) returned %r' % (api, core.short(a), X))
@@ -456,6 +463,8 @@ def run(ctx):
                 U = np.r_[u, np.zeros(nso)]
             if abs(np.linalg.norm(U[len(U) - nso:]) - 1) < 1e-15 or np.linalg.norm(U[len(U) - nso:]) == 0:
                 p = dict(dim=dim, S=U if rng.random() < 0.7 else (ref.skew(U) if kind == 'so' else ref.skewa(U)), theta=float(gen.angle(rng)))
+        if rng.random() < 0.25:
+            p['layout'] = gen.LAYOUTS[rng.integers(4)]
         drive(RUNNERS, ctx, 'exp', p)
         if ctx.ncases % 1999 == 1:
             ctx.sample(dict(case='exp', **p))
@@ -463,6 +472,8 @@ def run(ctx):
         dim = int(rng.integers(2, 4))
         kind = 'so' if rng.random() < 0.3 else 'se'
         p = dict(dim=dim, kind=kind, S=algebra(rng, dim, kind))
+        if rng.random() < 0.2:
+            p['layout'] = gen.LAYOUTS[rng.integers(4)]
         drive(RUNNERS, ctx, 'log', p)
         if ctx.ncases % 1999 == 1:
             ctx.sample(dict(case='log', **p))
@@ -475,6 +486,8 @@ def run(ctx):
         p = dict(dim=dim, kind=kind, S=algebra(rng, dim, kind, many=which in ('Exp', 'twexp') and not with_theta), which=which)
         if which == 'Exp':
             p['form'] = ['vec', 'list', 'mat'][rng.integers(3)]
+            if rng.random() < 0.3:
+                p['layout'] = gen.LAYOUTS[rng.integers(4)]
         if with_theta:
             p['theta'] = float(gen.angle(rng))
         drive(RUNNERS, ctx, 'class', p)
